@@ -1159,7 +1159,7 @@ def exercise_cfr(ck) -> None:
     """Correspondence of ExternalTensor.tofile's copy_file_range loop with C08/Cfr.v (tofile_fast), evaluated inside
     Coq, plus the oracle (returned normally => every byte copied)."""
     root = os.path.join(ck.scratch, "cfr")
-    cases = [gen_cfr_case(ck.rng) for _ in range(160 if not ck.thorough else 3000)]
+    cases = [gen_cfr_case(ck.rng) for _ in range(120 if not ck.thorough else 3000)]
     terms, obs_all = [], []
     for case in cases:
         obs = run_cfr_case(case, root)
@@ -1257,7 +1257,7 @@ def run(ck) -> None:
                            "the cleanup of a save whose destination already exists")
     generate(ck)
     ck.prove()
-    n_single = 28 if not ck.thorough else 400
+    n_single = 24 if not ck.thorough else 400
     n_shard = 10 if not ck.thorough else 120
     n_par = 4 if not ck.thorough else 60
     runs, oracle_failures = [], []
